@@ -22,7 +22,13 @@ const (
 	mapFixed = iota // every library range starts at offset 0 (no choice point)
 	mapDeviation    // a rotation is a deviation
 	mapFree         // rotations are free (full product)
+	mapUniform      // every library range starts at offset (mapRotation mod count): one choice for all sites
 )
+
+var mapRotation int
+
+// SetMapRotation selects mode mapUniform with rotation r.
+func (c *Ctx) SetMapRotation(r int) { hookMode = mapUniform; mapRotation = r }
 
 var (
 	hookCtx          *Ctx
@@ -92,6 +98,8 @@ func mapIterHookLocked(count int, B uint8, pc uintptr) (uintptr, bool) {
 		return uintptr(hookCtx.chooseNoRace("map"+site, count, false)), true
 	case mapFree:
 		return uintptr(hookCtx.chooseNoRace("map"+site, count, true)), true
+	case mapUniform:
+		return uintptr(mapRotation % count), true
 	}
 	return 0, true
 }
